@@ -633,7 +633,9 @@ func lexContexts(id string) []string {
 	ctx := []string{"%s", "(%s)", "( %s )", "((%s))", "%s AND MIT", "MIT AND %s", "(%s) OR ISC", "ISC OR (%s)", "%s WITH Classpath-exception-2.0",
 		"(%s WITH Classpath-exception-2.0)", "(%s WITH Classpath-exception-2.0) AND MIT", "MIT OR (%s AND ISC)", "MIT OR (ISC AND %s)", "%s)", "(%s",
 		"%s +", "%s WITH", "%s:", "%s AND", "%s OR %s", "(%s AND %s) OR MIT", "%s  AND  (MIT)", "LicenseRef-x AND %s", "%s AND LicenseRef-x",
-		"MIT WITH %s", "(MIT WITH %s)"}
+		"MIT WITH %s", "(MIT WITH %s)",
+		// the same text once inside a reference name and once as a license
+		"LicenseRef-%s AND %s", "DocumentRef-%s:LicenseRef-notice OR %s", "%s AND LicenseRef-%s", "LicenseRef-%s OR %s AND ISC"}
 	var out []string
 	for _, sp := range spell {
 		for _, c := range ctx {
@@ -817,6 +819,23 @@ func init() {
 				flushCorr()
 			}
 		}
+		// reference names that look like operators or contain operator words between dots, in every position
+		for _, rn := range []string{"AND", "OR", "WITH", "and", "dual.or.commercial", "a.and.b", "x.with.y", "MIT", "MIT-or-later"} {
+			for _, c := range []string{"MIT LicenseRef-%s ISC", "MIT AND LicenseRef-%s", "LicenseRef-%s AND MIT", "MIT LicenseRef-%s Classpath-exception-2.0",
+				"(MIT LicenseRef-%s LicenseRef-x) AND ISC", "DocumentRef-%s:LicenseRef-%s OR MIT", "MIT DocumentRef-%s:LicenseRef-x ISC", "LicenseRef-%s", "LicenseRef-%s+", "MIT WITH LicenseRef-%s"} {
+				text := strings.ReplaceAll(c, "%s", rn)
+				res.Evaluations++
+				count("ref_name_probes")
+				got := implVal([]string{text})
+				acc := got.panicv == nil && got.ok
+				k := &kase{Expr: text, ExprHex: hx(text)}
+				correspondNorm("P "+hx(text), map[bool]string{true: "ok", false: "err"}[acc], "accept/reject with operator-like reference names: model parse vs ValidateLicenses", k, okErr)
+				if acc {
+					x := implExt(text)
+					correspondNorm("E "+hx(text), x.String(), "extracted terms with operator-like reference names: model vs implementation", k, extractSetNorm)
+				}
+			}
+		}
 		// lexical level: which WORDS are license ids / exception ids.  Reference written from the property text:
 		// a word is a license id iff it is on the active or deprecated list (any letter case) or is an active id carrying
 		// exactly one documented suffix; an exception id likewise over the exception list.
@@ -842,6 +861,26 @@ func init() {
 			}
 			if len(corrQ) > 100000 {
 				flushCorr()
+			}
+		}
+		// boundary sizes of nesting and of flat chains (depth / length counters, recursion guards)
+		for _, n := range []int{1, 2, 15, 16, 17, 31, 32, 33, 63, 64, 65, 127, 128, 129, 255, 256, 257, 300, 1000, 4096, 10000, 10001, 12001} {
+			if n > 300 && !thorough() && n != 10001 && n != 1000 {
+				continue
+			}
+			texts := []string{strings.Repeat("(", n) + "MIT" + strings.Repeat(")", n),
+				strings.Repeat("(", n) + "MIT" + strings.Repeat(")", n-1),
+				"MIT" + strings.Repeat(" OR ISC", n), "MIT" + strings.Repeat(" AND ISC", n), "(MIT)" + strings.Repeat(" OR (ISC)", n)}
+			for _, text := range texts {
+				res.Evaluations++
+				count("boundary_sizes")
+				got := implVal([]string{text})
+				acc := got.panicv == nil && got.ok
+				k := &kase{Extra: map[string]string{"generated": fmt.Sprintf("%d bytes starting %q (n=%d)", len(text), text[:min(len(text), 24)], n)}}
+				if len(text) < 2000 {
+					k.Expr, k.ExprHex = text, hx(text)
+				}
+				correspondNorm("P "+hx(text), map[bool]string{true: "ok", false: "err"}[acc], "accept/reject at a boundary size: model parse vs ValidateLicenses", k, okErr)
 			}
 		}
 		// every listed id x spellings x syntactic contexts (parentheses, operators, WITH, '+', truncations): the places where
@@ -1031,6 +1070,40 @@ func init() {
 			}
 			if len(corrQ) > 50000 {
 				flushCorr()
+			}
+		}
+		// exception ids carrying a suffix after WITH (whatever message comes back, a cited lexeme must be where it is said to be)
+		for i, e := range tblExceptions {
+			if !thorough() && i%2 != int(seed%2) {
+				continue
+			}
+			for _, suf := range []string{"-or-later", "-only", "-or-later+", "x"} {
+				for _, pre := range []string{"MIT WITH ", "(Apache-2.0-or-later WITH ", "MIT AND ISC+ WITH "} {
+					if f := c15Check(pre+e+suf, "any", i%3); f != nil {
+						fail(*f)
+					}
+					count("exception_suffix_contexts")
+				}
+			}
+		}
+		// the offending lexeme BETWEEN two occurrences of the same rewritten id
+		for i, id := range append(append([]string{}, tblActive...), tblDeprecated...) {
+			if strings.HasSuffix(id, "+") || (!thorough() && i%6 != int(seed%6)) {
+				continue
+			}
+			sp := id + "-or-later"
+			if !implValid(sp) {
+				continue
+			}
+			for _, text := range []string{sp + " AND FOO AND " + sp, sp + " OR " + sp + " AND FOO-x OR " + sp, "(" + sp + " AND LicenseRef-) OR " + sp, sp + "+ AND BAR AND " + sp + "+"} {
+				kind := "unknown"
+				if strings.Contains(text, "LicenseRef-)") {
+					kind = "missing"
+				}
+				if f := c15Check(text, kind, i%3); f != nil {
+					fail(*f)
+				}
+				count("between_repeats")
 			}
 		}
 		// every listed id in the spellings that trigger the rewrite / look-ahead, as a prefix of the offending lexeme
